@@ -468,4 +468,19 @@ PROPS['C14'].update({
                   'functions of their arguments; the counting lemma (row sizes add up to the number of true cells) is Finset.card_sigma (lemmas/Upset.lean: card_true_cells); '
                   '"editing either side never changes the other" follows from the freshness obligations and the frame clauses of the C13 mutator units, not a separate obligation.',
 })
+PROPS['C15']['units'] += ['lemma.transpose', 'contexts.relations', 'junctors.Relations.__init__']
+PROPS['C15'].update({
+    'level': 'proof',
+    'proved_part': 'the code computes the spec functions (units of C01/C03/C05/C07/C16; one closure text for both directions = duality), and the spec functions are invariant: '
+                   'column permutation leaves the closure on object sets unchanged and relabels intents (L-PERM), a duplicated or universal column leaves the closure unchanged '
+                   '(L-DUP-COL, L-FULL-COL), each with the machine-checked corollaries: same family of extents (hence the same number of concepts), same joins, meets and cover '
+                   'condition; transposition (L-TRANSPOSE): derivation operators exchanged, (A,B) concept iff (B,A) concept of the transpose, order reversed, intent of a join = meet of '
+                   'intents and intent of a meet = join of intents; relations: the columns move with their labels (link) and Relations pairs the columns (unit); Definition.transposed swaps the axes',
+    'bounded_part': 'the label-level relational statement on enumerated pairs of real contexts (original vs. permuted / transposed / extended) as replay / counterexample finder',
+    'technique': 'contract-based: spec-level invariance and duality lemmas with their corollaries proved by z3 over two related tables + the code-equals-spec contracts of the other '
+                 'properties; bounded relational run-time contracts as replay',
+    'level_text': 'Every statement of the property is an obligation at the level of the spec functions of two related tables, all discharged; the real functions are proved to compute those spec functions.',
+    'level_note': 'Relational property: the composition "code = spec for each table" + "spec statements for the two tables" is the modular argument, not a single obligation; row permutation / row duplication '
+                  'are the column lemmas applied to the transposed tables (L-TRANSPOSE); assumes the bitsets contracts of the underlying units.',
+})
 NOT_APPLICABLE = {}
